@@ -13,8 +13,8 @@ REPO = os.environ.get("VERIF_REPO", "/repo")
 OUT = os.environ.get("VERIF_PYL_OUT") or os.path.join(os.path.dirname(os.path.abspath(__file__)), "..", "coq", "Gen", "PylSrc.v")
 
 TARGETS = {
-    "builtins.py": ["all", "any", "list", "tuple", "set", "filter", "enumerate", "sum", "_min_max", "map"],
-    "itertools.py": ["takewhile", "dropwhile", "filterfalse", "starmap", "pairwise", "accumulate", "islice", "compress"],
+    "builtins.py": ["all", "any", "list", "tuple", "set", "filter", "enumerate", "sum", "_min_max", "map", "_zip_inner", "_zip_inner_strict", "zip"],
+    "itertools.py": ["takewhile", "dropwhile", "filterfalse", "starmap", "pairwise", "accumulate", "islice", "compress", "batched"],
     "functools.py": ["reduce"],
 }
 
@@ -34,6 +34,8 @@ class Tr:
     def __init__(self, fn, markers=()):
         self.fn = fn
         self.markers = set(markers)      # module-level "not given" marker objects (Sentinel(...))
+        self.vararg = fn.args.vararg.arg if fn.args.vararg else None
+        self.local_markers = set()       # x = object()
         # names bound to callables: those passed through _awaitify somewhere in the function
         self.callables = set()
         for n in ast.walk(fn):
@@ -59,8 +61,16 @@ class Tr:
             if isinstance(e.value, int):
                 return "(EInt (%d)%%Z)" % e.value
             raise Unsupported("constant")
+        if isinstance(e, ast.UnaryOp) and isinstance(e.op, ast.Not) and isinstance(e.operand, ast.Name) and e.operand.id == self.vararg:
+            return "(EStarEmpty %s)" % q(e.operand.id)
         if isinstance(e, ast.UnaryOp) and isinstance(e.op, ast.Not):
             return "(ENot %s)" % self.expr(e.operand)
+        if isinstance(e, ast.BoolOp) and isinstance(e.op, ast.And) and len(e.values) == 2:
+            return "(EAnd %s %s)" % (self.expr(e.values[0]), self.expr(e.values[1]))
+        if isinstance(e, ast.Call) and isinstance(e.func, ast.Name) and e.func.id == "len" and len(e.args) == 1 and not e.keywords:
+            return "(ELen %s)" % self.expr(e.args[0])
+        if isinstance(e, ast.Call) and isinstance(e.func, ast.Name) and e.func.id == "tuple" and len(e.args) == 1 and not e.keywords:
+            return "(ETupleOfList %s)" % self.expr(e.args[0])
         if isinstance(e, ast.Tuple):
             if len(e.elts) == 1 and isinstance(e.elts[0], ast.Starred):
                 return "(ETupleOfList %s)" % self.expr(e.elts[0].value)
@@ -145,6 +155,19 @@ class Tr:
                 out.append(ast.Expr(value=ast.Yield(value=ast.Await(value=s0.value))))
                 i += 2
                 continue
+            if (isinstance(s0, ast.Assign) and len(s0.targets) == 1 and isinstance(s0.targets[0], ast.Name) and isinstance(s0.value, ast.IfExp)
+                    and isinstance(s1, ast.AsyncFor) and isinstance(s1.iter, ast.Name) and s1.iter.id == s0.targets[0].id and not s1.orelse
+                    and isinstance(s1.target, ast.Name) and len(s1.body) == 1 and isinstance(s1.body[0], ast.Expr)
+                    and isinstance(s1.body[0].value, ast.Yield) and isinstance(s1.body[0].value.value, ast.Name)
+                    and s1.body[0].value.value.id == s1.target.id):
+                def gen_call(c):
+                    return (isinstance(c, ast.Call) and isinstance(c.func, ast.Name) and len(c.args) == 1 and isinstance(c.args[0], ast.Name) and not c.keywords)
+                ie = s0.value
+                if gen_call(ie.body) and gen_call(ie.orelse):
+                    # inner = f(star) if <test> else g(star) ; async for x in inner: yield x
+                    out.append(("DELEGATE", ie.test, (ie.body.func.id, ie.body.args[0].id), (ie.orelse.func.id, ie.orelse.args[0].id)))
+                    i += 2
+                    continue
             if (isinstance(s0, ast.Assign) and ast.unparse(s0) == "s = slice(*args)" and s1 is not None
                     and ast.unparse(s1) == "start, stop, step = (s.start or 0, s.stop, s.step or 1)"):
                 out.append("SLICE-PRELUDE")
@@ -155,7 +178,17 @@ class Tr:
         return out
 
     def block(self, stmts):
-        out = [("SSlicePrelude" if s == "SLICE-PRELUDE" else self.stmt(s)) for s in self.fuse(stmts)]
+        out = []
+        for s in self.fuse(stmts):
+            if s == "SLICE-PRELUDE":
+                out.append("SSlicePrelude")
+            elif isinstance(s, tuple) and s[0] == "DELEGATE":
+                try:
+                    out.append("(SIf %s (SDelegate %s %s) (SDelegate %s %s))" % (self.expr(s[1]), q(s[2][0]), q(s[2][1]), q(s[3][0]), q(s[3][1])))
+                except Unsupported as e:
+                    out.append("(SUnsupported %s)" % q("delegate: %s" % e))
+            else:
+                out.append(self.stmt(s))
         out = [s for s in out if s is not None]
         if not out:
             return "SSkip"
@@ -171,6 +204,22 @@ class Tr:
             return "(SUnsupported %s)" % q("%s: %s" % (e, ast.unparse(s).splitlines()[0][:80]))
 
     def _stmt(self, s):
+        if isinstance(s, ast.Expr) and isinstance(s.value, ast.Yield) and isinstance(s.value.value, ast.Tuple) and len(s.value.value.elts) == 1 \
+                and isinstance(s.value.value.elts[0], ast.Starred) and isinstance(s.value.value.elts[0].value, ast.ListComp):
+            lc = s.value.value.elts[0].value
+            g = lc.generators[0] if len(lc.generators) == 1 else None
+            if (g is not None and not g.is_async and not g.ifs and isinstance(g.target, ast.Name) and isinstance(g.iter, ast.Name)
+                    and isinstance(lc.elt, ast.Await) and isinstance(lc.elt.value, ast.Call) and isinstance(lc.elt.value.func, ast.Name)
+                    and lc.elt.value.func.id == "anext" and len(lc.elt.value.args) == 1 and isinstance(lc.elt.value.args[0], ast.Name)
+                    and lc.elt.value.args[0].id == g.target.id and not lc.elt.value.keywords):
+                # yield (*[await anext(it) for it in star],)
+                return "(SSeq (SAnextRow %s %s) (SYield (ETupleOfList (EVar %s))))" % (q("$row"), q(g.iter.id), q("$row"))
+        if isinstance(s, ast.If) and isinstance(s.test, ast.Compare) and len(s.test.ops) == 1 and isinstance(s.test.ops[0], ast.IsNot) \
+                and isinstance(s.test.comparators[0], ast.Name) and s.test.comparators[0].id in self.local_markers \
+                and isinstance(s.test.left, ast.Await) and isinstance(s.test.left.value, ast.Call) and isinstance(s.test.left.value.func, ast.Name) \
+                and s.test.left.value.func.id == "anext" and len(s.test.left.value.args) == 2 and isinstance(s.test.left.value.args[0], ast.Name) \
+                and isinstance(s.test.left.value.args[1], ast.Name) and s.test.left.value.args[1].id == s.test.comparators[0].id:
+            return "(SIfAnextGot %s %s %s)" % (q(s.test.left.value.args[0].id), self.block(s.body), self.block(s.orelse))
         if isinstance(s, ast.Expr) and isinstance(s.value, ast.Constant) and isinstance(s.value.value, str):
             return None                              # docstring
         if isinstance(s, ast.Expr) and isinstance(s.value, ast.Yield):
@@ -181,6 +230,19 @@ class Tr:
             s = ast.Assign(targets=[s.target], value=s.value)
         if isinstance(s, ast.Assign) and len(s.targets) == 1 and isinstance(s.targets[0], ast.Name):
             x, v = s.targets[0].id, s.value
+            if isinstance(v, ast.List) and not v.elts:
+                return "(SListNew %s)" % q(x)
+            if isinstance(v, ast.Call) and isinstance(v.func, ast.Name) and v.func.id == "object" and not v.args and not v.keywords:
+                self.local_markers.add(x)
+                return None
+            if (isinstance(v, ast.Tuple) and len(v.elts) == 1 and isinstance(v.elts[0], ast.Starred) and isinstance(v.elts[0].value, ast.GeneratorExp)):
+                ge = v.elts[0].value
+                g = ge.generators[0] if len(ge.generators) == 1 else None
+                if (g is not None and not g.is_async and not g.ifs and isinstance(g.target, ast.Name) and isinstance(g.iter, ast.Name)
+                        and isinstance(ge.elt, ast.Call) and isinstance(ge.elt.func, ast.Name) and ge.elt.func.id == "aiter"
+                        and len(ge.elt.args) == 1 and isinstance(ge.elt.args[0], ast.Name) and ge.elt.args[0].id == g.target.id):
+                    return "(SStarAlias %s %s)" % (q(x), q(g.iter.id))
+                raise Unsupported("tuple of iterators")
             if isinstance(v, ast.Call) and isinstance(v.func, ast.Name) and v.func.id == "_awaitify":
                 if len(v.args) == 1 and isinstance(v.args[0], ast.Name) and v.args[0].id == x and not v.keywords:
                     return "(SAwaitify %s)" % q(x)
@@ -242,6 +304,46 @@ class Tr:
                 and s.exc.func.id in ("TypeError", "ValueError") and builtins_all(self.is_text(x) for x in s.exc.args) and not s.exc.keywords \
                 and (s.cause is None or (isinstance(s.cause, ast.Constant) and s.cause.value is None)):
             return "(SRaise %s)" % {"TypeError": "XTypeError", "ValueError": "XValueError"}[s.exc.func.id]
+        if isinstance(s, ast.Delete) and builtins_all(isinstance(t, ast.Name) for t in s.targets):
+            return None                                  # del name: nothing observable
+        if isinstance(s, ast.While) and isinstance(s.test, ast.Constant) and s.test.value is True and not s.orelse:
+            return "(SWhileTrue %s)" % self.block(s.body)
+        if isinstance(s, ast.Try) and not s.handlers and not s.orelse and len(s.finalbody) == 1:
+            f = s.finalbody[0]
+            if (isinstance(f, ast.Expr) and isinstance(f.value, ast.Await) and isinstance(f.value.value, ast.Call) and isinstance(f.value.value.func, ast.Name)
+                    and f.value.value.func.id == "_close_all" and len(f.value.value.args) == 1 and isinstance(f.value.value.args[0], ast.Name)):
+                return "(STryFinally %s (SCloseAll %s))" % (self.block(s.body), q(f.value.value.args[0].id))
+            raise Unsupported("finally shape")
+        if isinstance(s, ast.Expr) and isinstance(s.value, ast.Call) and isinstance(s.value.func, ast.Attribute) and isinstance(s.value.func.value, ast.Name) \
+                and not s.value.keywords:
+            obj, meth, args = s.value.func.value.id, s.value.func.attr, s.value.args
+            if meth == "clear" and not args:
+                return "(SListClear %s)" % q(obj)
+            if (meth == "append" and len(args) == 1 and isinstance(args[0], ast.Await) and isinstance(args[0].value, ast.Call)
+                    and isinstance(args[0].value.func, ast.Name) and args[0].value.func.id == "anext" and len(args[0].value.args) == 1
+                    and isinstance(args[0].value.args[0], ast.Name) and not args[0].value.keywords):
+                return "(SAppendAnext %s %s)" % (q(obj), q(args[0].value.args[0].id))
+            raise Unsupported("method call")
+        if isinstance(s, ast.For) and not s.orelse and isinstance(s.iter, ast.Call) and not s.iter.keywords:
+            fn_ = s.iter.func
+            fname = fn_.id if isinstance(fn_, ast.Name) else (fn_.attr if isinstance(fn_, ast.Attribute) and isinstance(fn_.value, ast.Name)
+                                                               and fn_.value.id == "_sync_builtins" else None)
+            if fname == "range" and isinstance(s.target, ast.Name) and len(s.iter.args) == 1:
+                return "(SForRange %s %s)" % (self.expr(s.iter.args[0]), self.block(s.body))
+            if fname == "enumerate" and isinstance(s.target, ast.Tuple) and len(s.target.elts) == 2 and builtins_all(isinstance(x, ast.Name) for x in s.target.elts):
+                a0 = s.iter.args[0]
+                start = 0
+                if len(s.iter.args) == 2 and isinstance(s.iter.args[1], ast.Constant) and isinstance(s.iter.args[1].value, int):
+                    start = s.iter.args[1].value
+                elif len(s.iter.args) != 1:
+                    raise Unsupported("enumerate arguments")
+                frm = 0
+                if isinstance(a0, ast.Subscript) and isinstance(a0.slice, ast.Slice) and a0.slice.upper is None and a0.slice.step is None \
+                        and isinstance(a0.slice.lower, ast.Constant) and isinstance(a0.slice.lower.value, int) and a0.slice.lower.value >= 0:
+                    frm, a0 = a0.slice.lower.value, a0.value
+                if isinstance(a0, ast.Name):
+                    return "(SForIters %s %s %s %d (%d)%%Z %s)" % (q(s.target.elts[0].id), q(s.target.elts[1].id), q(a0.id), frm, start, self.block(s.body))
+            raise Unsupported("for shape")
         if isinstance(s, ast.Try) and len(s.body) == 1 and isinstance(s.body[0], ast.Assign) and isinstance(s.body[0].value, ast.IfExp):
             # try: x = A if <marker test> else await anext(it)  except StopAsyncIteration: H
             # only the anext branch can raise StopAsyncIteration: the try moves into that branch
@@ -264,6 +366,9 @@ class Tr:
                         and v.value.func.id == "anext" and len(v.value.args) == 1 and isinstance(v.value.args[0], ast.Name)
                         and not v.value.keywords):
                     return "(SAnextOr %s %s %s)" % (q(s.body[0].targets[0].id), q(v.value.args[0].id), self.block(s.handlers[0].body))
+            if (not s.orelse and not s.finalbody and len(s.handlers) == 1 and isinstance(s.handlers[0].type, ast.Name)
+                    and s.handlers[0].type.id == "StopAsyncIteration" and s.handlers[0].name is None):
+                return "(STryStop %s %s)" % (self.block(s.body), self.block(s.handlers[0].body))
             raise Unsupported("try shape")
         if isinstance(s, ast.Break):
             return "SBreak"
